@@ -8,6 +8,9 @@ Open Scope N_scope.
 Record phase := mkPh {
   ph_oracle : list outcome;
   ph_setidx : option N;
+  ph_renew : option N;                (* Some n: the cache entry was dropped (FlushDNSCache / expiry) before the phase and the
+                                         Resolver now returns n addresses: fresh entry, counter 0 *)
+  ph_res : rmode;                     (* what the Resolver does if it is consulted during the phase *)
   ph_starts : list (N * N * N);       (* offset, thread, timeout *)
   ph_results : list dobs
 }.
@@ -18,27 +21,44 @@ Inductive c41case :=
 | CConsts (default_timeout_ms dns_cache_ms : N)
 | CUnstable.   (* the scenario was disturbed by machine load on every attempt (independent canary): dropped, judges nothing *)
 
+Definition is_nil {A} (l : list A) : bool := match l with [] => true | _ => false end.
+
 Definition xres_eqb (a b : xres) : bool :=
   match a, b with
   | XOk x, XOk y | XTimeout x, XTimeout y | XErr x, XErr y => x =? y
+  | XResolveErr, XResolveErr => true
   | _, _ => false
   end.
 
 Definition threads_of (p : phase) : list N := map (fun x => snd (fst x)) (ph_starts p).
 
 (* start the Dial calls in order, letting time pass up to each start offset, then run to completion *)
-Fixpoint run_starts (c : dcfg) (s : dstate) (oracle : N -> outcome) (ts : list N) (t0 : N) (starts : list (N * N * N)) : dstate :=
+Fixpoint run_starts (c : dcfg) (s : dstate) (oracle : N -> outcome) (rm : rmode) (ts : list N) (t0 : N) (starts : list (N * N * N)) : dstate :=
   match starts with
-  | [] => sim c 400 s oracle ts
+  | [] => sim c 400 s oracle rm ts
   | (off, t, to) :: rest =>
-      let s1 := sim_until c 400 s oracle ts (t0 + off) in
+      let s1 := sim_until c 400 s oracle rm ts (t0 + off) in
       let s2 := match dstep c s1 (LTick (t0 + off - clock s1)) with Some x => x | None => s1 end in
       let s3 := match dstep c s2 (LStart t to) with Some x => x | None => s2 end in
-      run_starts c s3 oracle ts t0 rest
+      run_starts c s3 oracle rm ts t0 rest
   end.
-Definition run_phase (c : dcfg) (s : dstate) (p : phase) : dstate :=
-  let s0 := match ph_setidx p with Some v => mkDS (sem s) v (clock s) (tp s) (inprog s) | None => s end in
-  run_starts c s0 (oracle_of (ph_oracle p)) (threads_of p) (clock s0) (ph_starts p).
+Definition phase_cfg (c : dcfg) (p : phase) : dcfg :=
+  match ph_renew p with Some n' => mkCfg (cap c) n' | None => c end.
+(* the Resolver is consulted only when there is no usable cache entry *)
+Definition eff_res (has_entry : bool) (p : phase) : rmode :=
+  match ph_renew p with
+  | Some _ => ph_res p
+  | None => if has_entry then RGood else ph_res p
+  end.
+Definition entry_after (has_entry : bool) (p : phase) : bool :=
+  match eff_res has_entry p with
+  | RGood => match ph_renew p with Some _ => negb (is_nil (ph_starts p)) | None => has_entry || negb (is_nil (ph_starts p)) end
+  | _ => false
+  end.
+Definition run_phase (c : dcfg) (s : dstate) (has_entry : bool) (p : phase) : dstate :=
+  let s0 := match ph_renew p with Some _ => mkDS (sem s) 0 (clock s) (tp s) (inprog s) | None => s end in
+  let s1 := match ph_setidx p with Some v => mkDS (sem s0) v (clock s0) (tp s0) (inprog s0) | None => s0 end in
+  run_starts (phase_cfg c p) s1 (oracle_of (ph_oracle p)) (eff_res has_entry p) (threads_of p) (clock s1) (ph_starts p).
 
 Definition result_of (s : dstate) (t : N) : option xres :=
   match tp s t with TDone r _ _ _ _ => Some r | _ => None end.
@@ -47,17 +67,17 @@ Definition elapsed_of (s : dstate) (t to : N) : option N :=
   match tp s t with TDone _ dl _ _ at_ => Some (at_ - (dl - to)) | _ => None end.
 Definition close_ms (a b : N) : bool := (a <=? b + slack_ms) && (b <=? a + slack_ms).
 
-Fixpoint dial_corr (c : dcfg) (s : dstate) (phases : list phase) : bool :=
+Fixpoint dial_corr (c : dcfg) (s : dstate) (has_entry : bool) (phases : list phase) : bool :=
   match phases with
   | [] => true
   | p :: rest =>
-      let s' := run_phase c s p in
+      let s' := run_phase c s has_entry p in
       forallb (fun d : dobs => match d with
                            | (t, to, Ret r, el) => option_eqb xres_eqb (result_of s' t) (Some r) &&
                                                    match elapsed_of s' t to with Some m => close_ms m el | None => false end
                            | (_, _, Stuck, _) => false    (* every dial of the transition system run returns *)
                            end) (ph_results p)
-      && (sem s' =? 0) && dial_corr c s' rest
+      && (sem s' =? 0) && dial_corr (phase_cfg c p) s' (entry_after has_entry p) rest
   end.
 
 (* every invariant / consequence of the transition system that the concurrent run can show *)
@@ -67,11 +87,12 @@ Definition stress_corr (capn n to maxin : N) (accepting : bool) (rs : list (oxre
                     | Ret (XOk a) => accepting && (a <? n)
                     | Ret (XTimeout a) => negb accepting && (a <? n)
                     | Ret (XErr _) => false
+                    | Ret XResolveErr => false
                     | Stuck => false end) rs.
 
 Definition corr_ok (c : c41case) : bool :=
   match c with
-  | CDial capn n phases => dial_corr (mkCfg capn n) dsinit phases
+  | CDial capn n phases => dial_corr (mkCfg capn n) dsinit false phases
   | CStress capn n to maxin acc rs => stress_corr capn n to maxin acc rs
   | CConsts dt dc => (Z.of_N dt * 1000000 =? DefaultDialTimeout)%Z && (Z.of_N dc * 1000000 =? DefaultDNSCacheDuration)%Z
   | CUnstable => true
@@ -79,7 +100,7 @@ Definition corr_ok (c : c41case) : bool :=
 
 Definition prop_ok (c : c41case) : bool :=
   match c with
-  | CDial capn n phases => forallb (fun p => forallb (dial_ok (ph_oracle p)) (ph_results p)) phases
+  | CDial capn n phases => forallb (fun p => forallb (dial_ok (ph_oracle p) (ph_res p)) (ph_results p)) phases
   | CStress capn n to maxin acc rs => stress_dial_ok capn to maxin acc rs
   | CConsts _ _ => true
   | CUnstable => true
